@@ -365,6 +365,9 @@ func c10CheckData(c *Ctx, s *Sys, keys *c10Keys, who int, outs [][]byte, sentTex
 		if len(sh.Bytes()) < 192 {
 			c.Count("data-checked:short-shared-secret")
 		}
+		if len(ourPub.Bytes()) < 192 || len(theirPub.Bytes()) < 192 {
+			c.Count("data-checked:short-public-key")
+		}
 		c.Rep.Evaluations++
 	}
 }
@@ -415,6 +418,12 @@ func genC10(c *Ctx) {
 		keys := newC10Keys()
 		if i%4 == 1 {
 			s.SetFragmentSize(1, 100+c.R.Intn(200))
+		}
+		if i%4 == 2 {
+			// one party only draws exponents whose public value has a leading zero byte (comparisons of public keys are
+			// numeric, MPIs minimal)
+			s.ps[1+c.R.Intn(2)].rnd.shortPub = true
+			c.Count("sessions-with-short-public-keys")
 		}
 		if i%2 == 1 {
 			// the random sources look for exponents whose shared secret with one of the peer's recent exponents has
